@@ -60,9 +60,9 @@ def gen_cases(mode, seed, count, max_commits=9):
     return [json.loads(l) for l in out.splitlines() if l.startswith('{')]
 
 
-def build_repo(case, root, bare=False):
+def build_repo(case, root, bare=False, sha256=False):
     repo = os.path.join(root, 'repo')
-    subprocess.run(['git', 'init', '-q'] + (['--bare'] if bare else []) + [repo], check=True, env=GIT_ENV, stdout=subprocess.DEVNULL)
+    subprocess.run(['git', 'init', '-q'] + (['--bare'] if bare else []) + (['--object-format=sha256'] if sha256 else []) + [repo], check=True, env=GIT_ENV, stdout=subprocess.DEVNULL)
     git(repo, 'config', 'user.name', 'T'); git(repo, 'config', 'user.email', 't@e')
     marks_path = os.path.join(root, 'marks')
     git(repo, 'fast-import', '--quiet', '--force', f'--export-marks={marks_path}', input=unhex(case['stream_hex']))
@@ -187,9 +187,14 @@ def filter_case(case):
     def count(k): res['dist'][k] = res['dist'].get(k, 0) + 1
     try:
         bare_repo = case['mode'] == 'rules' and case['id'] % 7 == 6
-        repo, marks = build_repo(case, root, bare=bare_repo)
+        # every ninth case lives in a SHA-256 repository (64-digit ids in the marks file, the maps and on id-referenced M lines);
+        # an id list for --strip-blobs-with-ids is defined for 40-digit ids only, so those cases stay SHA-1
+        sha256 = case['mode'] != 'rules' and case['id'] % 9 == 4 and '--strip-blobs-with-ids' not in case['cli']
+        repo, marks = build_repo(case, root, bare=bare_repo, sha256=sha256)
         if bare_repo:
             count('bare-repository')
+        if sha256:
+            count('sha256-repository')
         aux = write_aux(case, root, marks)
         extra_cli = []
         if case['mode'] == 'rules' and not bare_repo and head_of(repo) and head_of(repo) in refs(repo):
@@ -1001,7 +1006,11 @@ def analyze_case(case):
             repo = clone
             mode_flags = [['--sensitive'], ['--sensitive', '--backup'], ['--backup', '--cleanup', 'aggressive'], ['--write-report', '--sensitive']][case['id'] % 4]
             count('clone-with-origin-and-filter-mode-flags')
-        top = rnd.choice([0, 1, 2, 3, 5, 10, 50])
+        top = rnd.choice([0, 1, 2, 3, 5, 10, 50, 10 ** 6, 2 ** 63 - 1, 2 ** 64 - 1])     # a huge N simply lists every blob
+        if case['id'] % 4 == 2:
+            # an object store with a pack bitmap (the default after gc in a bare repository, `repack -adb` elsewhere)
+            subprocess.run(['git', '-C', repo, 'repack', '-adbq'], env=GIT_ENV, stdout=subprocess.DEVNULL, stderr=subprocess.DEVNULL)
+            count('pack-bitmap-present')
         extra = []
         thr = 10 * 1024 * 1024          # the default of warn_blob_bytes
         if rnd.random() < 0.6:          # threshold configurations are a debug-mode feature
@@ -1013,7 +1022,7 @@ def analyze_case(case):
                 count('config-file-contradicts-the-command-line')
             extra = ['--debug-mode', '--config', cfg]
             count('with-threshold-config')
-        count(f'top-{top}')
+        count(f'top-{top}' if top < 10 ** 6 else 'top-huge')
         top_arg, top = top, max(1, top)          # opts.rs clamps --analyze-top to at least 1
         truth = analysis_truth(repo)
         before = full_snapshot(repo) if not case['id'] % 5 == 4 else dict(refs=refs(repo), objects=sorted(git(repo, 'cat-file', '--batch-all-objects', '--batch-check').decode().split('\n')), gitdir=tree_digest(repo))
@@ -1243,7 +1252,12 @@ def detect_case(case):
             return _blob(repo, body)
         # (a) a file added on a branch and deleted by the next commit
         b1 = make_blob(fams[:2], 'deleted-file')
-        t1 = _mktree(repo, [('100644', 'blob', b1, b'secrets.env'), ('100644', 'blob', _blob(repo, ('\n'.join(rnd.sample(DECOYS, 3)) + '\n').encode()), b'decoys.txt')])
+        entries1 = [('100644', 'blob', b1, b'secrets.env'), ('100644', 'blob', _blob(repo, ('\n'.join(rnd.sample(DECOYS, 3)) + '\n').encode()), b'decoys.txt')]
+        if case['id'] % 2 == 0:
+            # a file name that is not valid UTF-8 (Latin-1 é), listed before the files that hold the tokens
+            entries1.append(('100644', 'blob', _blob(repo, b'name in latin-1\n'), b'0-caf\xe9.txt'))
+            count('file-name-not-utf8-listed-first')
+        t1 = _mktree(repo, entries1)
         c1 = _plumb_commit(repo, t1, [base] if base else [], b'add secrets\n')
         c2 = _plumb_commit(repo, _mktree(repo, [('100644', 'blob', _blob(repo, b'clean\n'), b'readme')]), [c1], b'remove secrets\n')
         git(repo, 'update-ref', 'refs/heads/work', c2)
